@@ -181,7 +181,7 @@ def sc_disp(V, op="Ball"):
     # replay: geometry on the model's draws, symmetry by a concrete statistical witness
     from ..shims import ScriptedRNG
 
-    rng = ScriptedRNG(V.w.get("draws", []))
+    rng = ScriptedRNG(V.w)
     r = np.asarray(o.calculate(Ctx(None, rng)), dtype=float).ravel()
     nrm = float(np.linalg.norm(r))
     tol = 1e-9 * max(1.0, s)
@@ -204,7 +204,7 @@ def sc_translation(V, n=2, cell="tric"):
     if V.mode == "sym":
         rng = RecRNG()
     else:
-        rng = shims.ScriptedRNG(V.w.get("draws", []))
+        rng = shims.ScriptedRNG(V.w)
     ctx = Ctx(atoms, rng, idx)
     pos0 = _conv(V, atoms.positions).copy()
     r = _conv(V, Translation().calculate(ctx))
@@ -465,7 +465,7 @@ def sc_deformation(V, op="Isotropic", masked=False):
         V.reach("done")
         return
     # replay on real code
-    rng = shims.ScriptedRNG(V.w.get("draws", []))
+    rng = shims.ScriptedRNG(V.w)
     if masked:
         mask = np.array([[V.bool(f"mask{i}{j}") for j in range(3)] for i in range(3)], dtype=bool)
         o = _def_op(op, mx, mask)
